@@ -162,7 +162,7 @@ Fixpoint order_ok (l : list staged) : bool :=
   end.
 
 Definition write_geometry_ok (w : write) : bool :=
-  match w with WPlain _ => true | WGso g => geometry_okb g end.
+  match w with WPlain _ => true | WGso g => geometry_okb g && seeds_okb g end.
 
 Definition spec_ok (ins : list staged) (ws : list write) (delivered : list pkt) : bool :=
   forallb write_geometry_ok ws
@@ -180,7 +180,9 @@ Definition check_case (c : case) : list N :=
           let pk := map snd ins in
           match resolve_ws tpls pk ws, resolve_ss tpls pk segs with
           | Some iw, Some isegs =>
-              flag 1 (list_eqb write_eqb (coalesce tso uso ins) iw)
+              (* the staged packets satisfy the representation invariants the theorems assume *)
+              flag 1 (forallb (fun kp => wf_pktb (snd kp) && ranges_okb (snd kp)) ins
+                      && list_eqb write_eqb (coalesce tso uso ins) iw)
               ++ flag 2 (spec_ok ins iw isegs && harness_ok)
               ++ flag 3 (list_eqb eq_mod_cks (tun_view iw) isegs)
           | _, _ => [1; 2]
